@@ -2,7 +2,6 @@
 package remember
 
 import (
-	"bytes"
 	"context"
 	"crypto/rand"
 	"crypto/sha512"
@@ -104,8 +103,10 @@ func Authenticate(ab *authboss.Authboss, w http.ResponseWriter, req **http.Reque
 		return nil
 	}
 
-	index := bytes.IndexByte(rawToken, ';')
-	if index < 0 {
+	// The token is pid;nonce where the nonce has a fixed size, the pid itself
+	// may contain the separator (OAuth2 pids always do).
+	index := len(rawToken) - nNonceSize - 1
+	if index < 0 || rawToken[index] != ';' {
 		authboss.DelCookie(w, authboss.CookieRemember)
 		logger.Infof("failed to decode remember me token, deleting cookie")
 		return nil
